@@ -3,7 +3,7 @@
 (*   cfg    {pw, aes, hdrenc}                  constructor arguments          *)
 (*   set    {which: encrypted|encoded, m}      setter calls in order          *)
 (*   facts  {raw_content, raw_names, nokey_content, nokey_names, mode,        *)
-(*           iv_fresh, cipher_fresh}           derived from the written bytes *)
+(*           iv_fresh, cipher_fresh, folders_aes}  derived from the bytes      *)
 (*   read   {pwkind: right|absent|wrong, opened, listed, delivered_good,      *)
 (*           delivered_bad, exc}                                              *)
 EXTENDS Crypto, Json, IOUtils, TLCExt
@@ -24,6 +24,7 @@ TSet == /\ IsEvent("set") /\ nsets' = 0
 TFacts == /\ IsEvent("facts") /\ ~closed /\ closed' = TRUE
           /\ Ev.mode = HeaderMode                                            \* the header was written the way the configuration says
           /\ ContentProtected => (~Ev.raw_content /\ ~Ev.nokey_content)      \* neither the bytes nor a keyless decode show the contents
+          /\ ContentProtected => Ev.folders_aes                              \* every folder that holds data has a 7zAES coder (also behind an encrypted header)
           /\ NamesProtected => (~Ev.raw_names /\ ~Ev.nokey_names)            \* ... nor the member names
           /\ (ContentProtected \/ NamesProtected) => (Ev.iv_fresh /\ Ev.cipher_fresh)   \* no IV / ciphertext shared with the twin archive
           /\ UNCHANGED <<pw, aes, encoded, hdrenc, nsets>>
